@@ -24,7 +24,7 @@ ASSUMED = [
 TRUSTED = [
     "oracle (C07 / C05 / C03 / C04): facts of the engines' grammars. SQLite, SQL Server and Snowflake have no DISTINCT keyword after UNION / EXCEPT / INTERSECT "
     "(set_ops_distinct = false); SQLite and SQL Server have no EXCEPT ALL / INTERSECT ALL (except_all = false); SQL Server has no LIMIT (use_fetch = true), SQLite, "
-    "Postgres, MySQL, DuckDB and ClickHouse have LIMIT (use_fetch = false); SQLite's OFFSET needs a LIMIT (limit_for_bare_offset = Some(-1)); only Postgres, DuckDB and "
+    "Postgres, MySQL, DuckDB and ClickHouse have LIMIT (use_fetch = false); SQLite's OFFSET needs a LIMIT (limit_for_bare_offset = Some(-1)); MySQL's and BigQuery's grammar is `LIMIT count [OFFSET skip]` too (limit_for_bare_offset = Some(a large number)); only Postgres, DuckDB and "
     "ClickHouse of the handled engines have DISTINCT ON (false for SQLite, MySQL, SQL Server, generic); `SELECT * EXCLUDE/EXCEPT` does not exist in SQLite, Postgres, MySQL, "
     "SQL Server or the generic dialect (column_exclude = None), is EXCEPT in BigQuery and EXCLUDE in Snowflake and DuckDB; MySQL, BigQuery and ClickHouse quote "
     "identifiers with a backtick, SQLite / Postgres / DuckDB / generic with a double quote; a SELECT without columns is Postgres-only among SQLite, MySQL, SQL Server, "
@@ -38,7 +38,7 @@ ORACLE = {
     ("SQLite", "except_all"): "false", ("MsSql", "except_all"): "false", ("Postgres", "except_all"): "true",
     ("MsSql", "use_fetch"): "true", ("SQLite", "use_fetch"): "false", ("Postgres", "use_fetch"): "false", ("MySql", "use_fetch"): "false", ("DuckDb", "use_fetch"): "false",
     ("ClickHouse", "use_fetch"): "false", ("Generic", "use_fetch"): "false",
-    ("SQLite", "limit_for_bare_offset"): "Some(-1)", ("Postgres", "limit_for_bare_offset"): "None", ("Generic", "limit_for_bare_offset"): "None",
+    ("SQLite", "limit_for_bare_offset"): "Some(-1)", ("MySql", "limit_for_bare_offset"): "~Some\\(.+\\)", ("BigQuery", "limit_for_bare_offset"): "~Some\\(.+\\)", ("Postgres", "limit_for_bare_offset"): "None", ("Generic", "limit_for_bare_offset"): "None",
     ("SQLite", "supports_distinct_on"): "false", ("MySql", "supports_distinct_on"): "false", ("MsSql", "supports_distinct_on"): "false", ("Generic", "supports_distinct_on"): "false",
     ("Postgres", "supports_distinct_on"): "true", ("DuckDb", "supports_distinct_on"): "true",
     ("SQLite", "column_exclude"): "None", ("Postgres", "column_exclude"): "None", ("MySql", "column_exclude"): "None", ("MsSql", "column_exclude"): "None",
@@ -135,6 +135,9 @@ def build(X):
         if got is None:
             raise ExtractionError("flag %s of dialect %s is not a constant any more" % (flag, d))
         esc = lambda s: s.replace("\\", "\\\\").replace('"', '\\"')
+        if want.startswith("~"):
+            # an oracle row that fixes the SHAPE of the value only (`Some(..)`: some limit must be written); the row's assertion is decided here, from the source text
+            want = got if re.fullmatch(want[1:], got) else "<a value of the form %s>" % want[1:]
         lines.append('proof fn row_%d() { reveal_strlit("%s"); reveal_strlit("%s"); assert("%s"@ == "%s"@); } // @%s   (%s)' % (n, esc(got), esc(want), esc(got), esc(want), _label(d, flag), how))
         n += 1
     hm.rewrites.append({"rule": "table", "what": "%d (dialect, flag) rows resolved from the trait defaults and the impl overrides" % n})
@@ -148,6 +151,7 @@ PROBES = {
     "set_ops_distinct": (DISTINCT + "from a\nselect {x, y}\nappend (from b | select {x, y})\ndistinct\n", r"\b(UNION|EXCEPT|INTERSECT)\s+DISTINCT\b"),
     "except_all": ("from a\nselect {x, y}\nremove (from b | select {x, y})\n", r"\bEXCEPT\s+ALL\b"),
     "use_fetch": ("from a\ntake 3\n", r"\bFETCH\s+FIRST\b"),
+    "limit_for_bare_offset": ("from a\ntake 3..\n", r"\bLIMIT\b"),
     "supports_distinct_on": ("from a\ngroup x (sort y | take 1)\n", r"\bDISTINCT\s+ON\b"),
     "column_exclude": ("from a\nselect !{x}\n", r"\*\s*(EXCLUDE|EXCEPT)\b"),
     "supports_zero_columns": ("from a\nselect {}\n", r"SELECT\s+FROM\b"),
@@ -169,6 +173,9 @@ def _probe(d, flag):
                 "failing": sql.startswith("PANIC"), "replay_kind": "probe", "dialect": d, "flag": flag}
     found = re.search(pat, " ".join(sql.split())) is not None
     must_be_absent = want in ("false", "None")
+    if flag == "limit_for_bare_offset" and want != "None":
+        found = re.search(r"\bLIMIT\b", sql) is not None
+        return {"input": src, "target": TARGET[d], "expected": "a LIMIT in front of the OFFSET", "observed": sql[:400], "failing": not found, "replay_kind": "probe", "dialect": d, "flag": flag}
     return {"input": src, "target": TARGET[d], "expected": "no match of /%s/ in the emitted SQL" % pat if must_be_absent else "not checked (the flag only enables a construct)",
             "observed": sql[:400], "failing": must_be_absent and found, "replay_kind": "probe", "dialect": d, "flag": flag}
 
@@ -192,7 +199,7 @@ SWEEP_DOC = "for every oracle row that forbids a construct (flag false / None) a
 def sweep():
     out = []
     for (d, flag), want in sorted(ORACLE.items()):
-        if want in ("false", "None"):
+        if want in ("false", "None") or flag == "limit_for_bare_offset":
             r = _probe(d, flag)
             if r:
                 r["obligation"] = "dialect_flags." + _label(d, flag)
